@@ -162,6 +162,34 @@ class CoderState(object):
         # Index to value is only needed for encoder
         self.idx_value = 0
 
+        # Each subset is a fresh application of the template: no operator,
+        # bitmap or back reference state carries over from the previous subset.
+        self.nbits_offset = 0  # 201
+        self.scale_offset = 0  # 202
+
+        self.nbits_of_new_refval = 0  # 203
+
+        self.nbits_of_associated = []  # 204
+        self.nbits_of_skipped_local_descriptor = 0  # 206
+
+        self.bsr_modifier = BSRModifier(
+            nbits_increment=0, scale_increment=0, refval_factor=1
+        )  # 207
+
+        self.new_nbytes = 0  # 208
+
+        self.data_not_present_count = 0  # 221
+        self.status_qa_info_follows = QA_INFO_NA  # 222
+
+        self.bitmap = None
+        self.bitmapped_descriptors = None
+        self.bitmap_definition_state = BITMAP_NA
+        self.most_recent_bitmap_is_for_reuse = False
+        self.n_031031 = 0
+        self.next_bitmapped_descriptor = None
+        self.back_reference_boundary = 0
+        self.back_referenced_descriptors = None
+
     def mark_back_reference_boundary(self):
         self.back_reference_boundary = len(self.decoded_descriptors)
 
